@@ -87,132 +87,132 @@ fn oct_digits(n: usize) {
     check(bv, v);
 }
 
-//# harness hex_0 tier=quick label=complete props=C10,C06 fn=rusty_bit_vec/src/lib.rs::BitVec::convert_to_int_or_long_expr
+//# harness hex_0 tier=quick tier.C06=thorough tier.C07=thorough label=complete props=C10,C06,C07 fn=rusty_bit_vec/src/lib.rs::BitVec::convert_to_int_or_long_expr
 harness!(hex_0, 3, {
     hex_digits(0);
 });
 
-//# harness hex_1 tier=quick label=complete props=C10,C06 fn=rusty_bit_vec/src/lib.rs::BitVec::convert_to_int_or_long_expr
+//# harness hex_1 tier=quick tier.C06=thorough tier.C07=thorough label=complete props=C10,C06,C07 fn=rusty_bit_vec/src/lib.rs::BitVec::convert_to_int_or_long_expr
 harness!(hex_1, 7, {
     hex_digits(1);
 });
 
-//# harness hex_2 tier=quick label=complete props=C10,C06 fn=rusty_bit_vec/src/lib.rs::BitVec::convert_to_int_or_long_expr
+//# harness hex_2 tier=quick tier.C06=thorough tier.C07=thorough label=complete props=C10,C06,C07 fn=rusty_bit_vec/src/lib.rs::BitVec::convert_to_int_or_long_expr
 harness!(hex_2, 11, {
     hex_digits(2);
 });
 
-//# harness hex_3 tier=quick label=complete props=C10,C06 fn=rusty_bit_vec/src/lib.rs::BitVec::convert_to_int_or_long_expr
+//# harness hex_3 tier=quick tier.C06=thorough tier.C07=thorough label=complete props=C10,C06,C07 fn=rusty_bit_vec/src/lib.rs::BitVec::convert_to_int_or_long_expr
 harness!(hex_3, 15, {
     hex_digits(3);
 });
 
-//# harness hex_4 tier=quick label=complete props=C10,C06 fn=rusty_bit_vec/src/lib.rs::BitVec::convert_to_int_or_long_expr
+//# harness hex_4 tier=quick tier.C06=thorough tier.C07=thorough label=complete props=C10,C06,C07 fn=rusty_bit_vec/src/lib.rs::BitVec::convert_to_int_or_long_expr
 harness!(hex_4, 19, {
     hex_digits(4);
 });
 
-//# harness hex_5 tier=quick label=complete props=C10,C06 fn=rusty_bit_vec/src/lib.rs::BitVec::convert_to_int_or_long_expr
+//# harness hex_5 tier=quick tier.C06=thorough tier.C07=thorough label=complete props=C10,C06,C07 fn=rusty_bit_vec/src/lib.rs::BitVec::convert_to_int_or_long_expr
 harness!(hex_5, 23, {
     hex_digits(5);
 });
 
-//# harness hex_6 tier=quick label=complete props=C10,C06 fn=rusty_bit_vec/src/lib.rs::BitVec::convert_to_int_or_long_expr
+//# harness hex_6 tier=quick tier.C06=thorough tier.C07=thorough label=complete props=C10,C06,C07 fn=rusty_bit_vec/src/lib.rs::BitVec::convert_to_int_or_long_expr
 harness!(hex_6, 27, {
     hex_digits(6);
 });
 
-//# harness hex_7 tier=quick label=complete props=C10,C06 fn=rusty_bit_vec/src/lib.rs::BitVec::convert_to_int_or_long_expr
+//# harness hex_7 tier=quick tier.C06=thorough tier.C07=thorough label=complete props=C10,C06,C07 fn=rusty_bit_vec/src/lib.rs::BitVec::convert_to_int_or_long_expr
 harness!(hex_7, 31, {
     hex_digits(7);
 });
 
-//# harness hex_8 tier=quick label=complete props=C10,C06 fn=rusty_bit_vec/src/lib.rs::BitVec::convert_to_int_or_long_expr
+//# harness hex_8 tier=quick tier.C06=thorough tier.C07=thorough label=complete props=C10,C06,C07 fn=rusty_bit_vec/src/lib.rs::BitVec::convert_to_int_or_long_expr
 harness!(hex_8, 35, {
     hex_digits(8);
 });
 
-//# harness hex_9 tier=quick label=complete props=C10,C06 fn=rusty_bit_vec/src/lib.rs::BitVec::convert_to_int_or_long_expr
+//# harness hex_9 tier=quick tier.C06=thorough tier.C07=thorough label=complete props=C10,C06,C07 fn=rusty_bit_vec/src/lib.rs::BitVec::convert_to_int_or_long_expr
 harness!(hex_9, 39, {
     hex_digits(9);
 });
 
-//# harness hex_10 tier=quick label=complete props=C10,C06 fn=rusty_bit_vec/src/lib.rs::BitVec::convert_to_int_or_long_expr
+//# harness hex_10 tier=quick tier.C06=thorough tier.C07=thorough label=complete props=C10,C06,C07 fn=rusty_bit_vec/src/lib.rs::BitVec::convert_to_int_or_long_expr
 harness!(hex_10, 43, {
     hex_digits(10);
 });
 
-//# harness hex_11 tier=quick label=complete props=C10,C06 fn=rusty_bit_vec/src/lib.rs::BitVec::convert_to_int_or_long_expr
+//# harness hex_11 tier=quick tier.C06=thorough tier.C07=thorough label=complete props=C10,C06,C07 fn=rusty_bit_vec/src/lib.rs::BitVec::convert_to_int_or_long_expr
 harness!(hex_11, 47, {
     hex_digits(11);
 });
 
-//# harness oct_0 tier=quick label=complete props=C10,C06 fn=rusty_bit_vec/src/lib.rs::BitVec::convert_to_int_or_long_expr
+//# harness oct_0 tier=quick tier.C06=thorough tier.C07=thorough label=complete props=C10,C06,C07 fn=rusty_bit_vec/src/lib.rs::BitVec::convert_to_int_or_long_expr
 harness!(oct_0, 3, {
     oct_digits(0);
 });
 
-//# harness oct_1 tier=quick label=complete props=C10,C06 fn=rusty_bit_vec/src/lib.rs::BitVec::convert_to_int_or_long_expr
+//# harness oct_1 tier=quick tier.C06=thorough tier.C07=thorough label=complete props=C10,C06,C07 fn=rusty_bit_vec/src/lib.rs::BitVec::convert_to_int_or_long_expr
 harness!(oct_1, 6, {
     oct_digits(1);
 });
 
-//# harness oct_2 tier=quick label=complete props=C10,C06 fn=rusty_bit_vec/src/lib.rs::BitVec::convert_to_int_or_long_expr
+//# harness oct_2 tier=quick tier.C06=thorough tier.C07=thorough label=complete props=C10,C06,C07 fn=rusty_bit_vec/src/lib.rs::BitVec::convert_to_int_or_long_expr
 harness!(oct_2, 9, {
     oct_digits(2);
 });
 
-//# harness oct_3 tier=quick label=complete props=C10,C06 fn=rusty_bit_vec/src/lib.rs::BitVec::convert_to_int_or_long_expr
+//# harness oct_3 tier=quick tier.C06=thorough tier.C07=thorough label=complete props=C10,C06,C07 fn=rusty_bit_vec/src/lib.rs::BitVec::convert_to_int_or_long_expr
 harness!(oct_3, 12, {
     oct_digits(3);
 });
 
-//# harness oct_4 tier=quick label=complete props=C10,C06 fn=rusty_bit_vec/src/lib.rs::BitVec::convert_to_int_or_long_expr
+//# harness oct_4 tier=quick tier.C06=thorough tier.C07=thorough label=complete props=C10,C06,C07 fn=rusty_bit_vec/src/lib.rs::BitVec::convert_to_int_or_long_expr
 harness!(oct_4, 15, {
     oct_digits(4);
 });
 
-//# harness oct_5 tier=quick label=complete props=C10,C06 fn=rusty_bit_vec/src/lib.rs::BitVec::convert_to_int_or_long_expr
+//# harness oct_5 tier=quick tier.C06=thorough tier.C07=thorough label=complete props=C10,C06,C07 fn=rusty_bit_vec/src/lib.rs::BitVec::convert_to_int_or_long_expr
 harness!(oct_5, 18, {
     oct_digits(5);
 });
 
-//# harness oct_6 tier=quick label=complete props=C10,C06 fn=rusty_bit_vec/src/lib.rs::BitVec::convert_to_int_or_long_expr
+//# harness oct_6 tier=quick tier.C06=thorough tier.C07=thorough label=complete props=C10,C06,C07 fn=rusty_bit_vec/src/lib.rs::BitVec::convert_to_int_or_long_expr
 harness!(oct_6, 21, {
     oct_digits(6);
 });
 
-//# harness oct_7 tier=quick label=complete props=C10,C06 fn=rusty_bit_vec/src/lib.rs::BitVec::convert_to_int_or_long_expr
+//# harness oct_7 tier=quick tier.C06=thorough tier.C07=thorough label=complete props=C10,C06,C07 fn=rusty_bit_vec/src/lib.rs::BitVec::convert_to_int_or_long_expr
 harness!(oct_7, 24, {
     oct_digits(7);
 });
 
-//# harness oct_8 tier=quick label=complete props=C10,C06 fn=rusty_bit_vec/src/lib.rs::BitVec::convert_to_int_or_long_expr
+//# harness oct_8 tier=quick tier.C06=thorough tier.C07=thorough label=complete props=C10,C06,C07 fn=rusty_bit_vec/src/lib.rs::BitVec::convert_to_int_or_long_expr
 harness!(oct_8, 27, {
     oct_digits(8);
 });
 
-//# harness oct_9 tier=quick label=complete props=C10,C06 fn=rusty_bit_vec/src/lib.rs::BitVec::convert_to_int_or_long_expr
+//# harness oct_9 tier=quick tier.C06=thorough tier.C07=thorough label=complete props=C10,C06,C07 fn=rusty_bit_vec/src/lib.rs::BitVec::convert_to_int_or_long_expr
 harness!(oct_9, 30, {
     oct_digits(9);
 });
 
-//# harness oct_10 tier=quick label=complete props=C10,C06 fn=rusty_bit_vec/src/lib.rs::BitVec::convert_to_int_or_long_expr
+//# harness oct_10 tier=quick tier.C06=thorough tier.C07=thorough label=complete props=C10,C06,C07 fn=rusty_bit_vec/src/lib.rs::BitVec::convert_to_int_or_long_expr
 harness!(oct_10, 33, {
     oct_digits(10);
 });
 
-//# harness oct_11 tier=quick label=complete props=C10,C06 fn=rusty_bit_vec/src/lib.rs::BitVec::convert_to_int_or_long_expr
+//# harness oct_11 tier=quick tier.C06=thorough tier.C07=thorough label=complete props=C10,C06,C07 fn=rusty_bit_vec/src/lib.rs::BitVec::convert_to_int_or_long_expr
 harness!(oct_11, 36, {
     oct_digits(11);
 });
 
-//# harness oct_12 tier=quick label=complete props=C10,C06 fn=rusty_bit_vec/src/lib.rs::BitVec::convert_to_int_or_long_expr
+//# harness oct_12 tier=quick tier.C06=thorough tier.C07=thorough label=complete props=C10,C06,C07 fn=rusty_bit_vec/src/lib.rs::BitVec::convert_to_int_or_long_expr
 harness!(oct_12, 39, {
     oct_digits(12);
 });
 
-//# harness bits_to_int tier=quick label=complete props=C10,C06 fn=rusty_bit_vec/src/lib.rs::bits_to_i32
+//# harness bits_to_int tier=quick tier.C06=thorough tier.C07=thorough label=complete props=C10,C06,C07 fn=rusty_bit_vec/src/lib.rs::bits_to_i32
 harness!(bits_to_int, 18, {
     // any 1..=16 bits, msb first: two's-complement reading at that width
     let n = vs::usize();
@@ -234,7 +234,7 @@ harness!(bits_to_int, 18, {
     reach!(n == 1 && expected == -1);
 });
 
-//# harness bits_to_long tier=quick label=complete props=C10,C06 fn=rusty_bit_vec/src/lib.rs::bits_to_i64
+//# harness bits_to_long tier=quick tier.C06=thorough tier.C07=thorough label=complete props=C10,C06,C07 fn=rusty_bit_vec/src/lib.rs::bits_to_i64
 harness!(bits_to_long, 34, {
     let n = vs::usize();
     vs::assume(1 <= n && n <= LONG_BITS);
